@@ -86,7 +86,7 @@ def c01(ctx):
         F.r_init_order(ctx, prog, MAIN3)
         IT.r_symtab_writers(ctx, prog)
         IT.r_it_register(ctx, prog)
-        IT.r_copy_scale(ctx, prog)
+        IT.r_copy_scale(ctx, prog, 'api')     # what the decoders can reach (the unused dense-matrix helpers are C18's)
         KN.r_kernel_shape(ctx, prog)
         KN.r_kea(ctx, prog, list(range(0, 2 * KN.P + 9)), [0, 1, 2, 3, 4, 5, 7, 8, 9, 12, 13, 16, 20])
     return dict(
@@ -219,6 +219,7 @@ def c14(ctx):
         T.r_poly(ctx, prog)
         T.r_table_writers(ctx, prog)
         T.r_accum_init(ctx, prog)
+        T.r_table_coverage(ctx, prog)
         T.r_init_before_use(ctx, prog)
     return dict(
         explanation='R-TABLES compares every entry of every compiled copy of the nine precomputed GF(2^4)/GF(2^8) tables '
@@ -348,6 +349,7 @@ def c18(ctx):
         MX.r_solver_ranges(ctx, prog)
         MX.r_scratch_reset(ctx, prog)
         MX.r_dense_rowfill(ctx, prog)
+        IT.r_copy_scale(ctx, prog, ['of_matrix_dense.c', 'of_matrix_convert.c', 'of_ml_tool.c', 'of_hamming_weight.c'])
         # the solver's symbol arithmetic: the XOR kernels only (the GF kernels belong to the Reed-Solomon codecs, not to C18)
         KN.r_kernel_shape(ctx, prog, KN.XOR_KINDS)
         KN.r_kea(ctx, prog, list(range(0, 2 * KN.P + 9)), [0, 1, 2, 3, 4, 5, 7, 8, 9, 12, 13, 16, 20], KN.XOR_KINDS)
@@ -426,6 +428,8 @@ def c15(ctx):
         K.r_staircase(ctx, prog)
         K.r_nullfeed(ctx, prog)
         K.r_pure_pchk(ctx, prog)
+        # the marker computed by the matrix constructor must not be re-initialised afterwards
+        F.r_init_order(ctx, prog, [3])
     return dict(
         explanation='Chain deciding C15: R-FLAG-TRUTH (the query answers true iff no extra entries and N1 even; truth table enumerated over '
         'the path conditions; role-independent), R-EXTRA-MARK (every entry beyond the column fill and the staircase is counted and the '
